@@ -106,9 +106,30 @@ def selftest_csv():
     return "L3-csv: corrupted row %d rejected, nothing else" % (k + 1)
 
 
+def selftest_version():
+    """the version reading is bound to the generator: one expectation changed to the reading with escaped dots must be reported"""
+    scratch = os.path.join(CACHE, "pvh-gen-selftest-%d" % os.getpid())
+    p = os.path.join(CACHE, "selftest-version-%d.ndjson" % os.getpid())
+    docs = [{"k": "version", "text": list("1.0.7"), "res": {"major": 1, "minor": 0, "patch": 7}},
+            {"k": "version", "text": list("10717"), "res": {"err": "no version"}},        # what literal dots would give
+            {"k": "version", "text": list("x1.0"), "res": {"err": "no version"}}]
+    with open(p, "w") as f:
+        f.write("\n".join(json.dumps(d) for d in docs) + "\n")
+    try:
+        out, _ = run_harness(["replay", "--in", p], env={"PVH_SCRATCH": scratch})
+    finally:
+        os.remove(p)
+        import shutil
+        shutil.rmtree(scratch, ignore_errors=True)
+    mism = [json.loads(l)["mismatch"] for l in nl_lines(out) if l.startswith('{"mismatch"')]
+    if len(mism) != 3 or any("10717" not in m["text"] or m["actual"] != {"major": 1, "minor": 7, "patch": 7} for m in mism):
+        tool_error("selftest version: literal-dot expectation not reported precisely: %s" % json.dumps(mism)[:300])
+    return "L2-version: the literal-dot reading of '10717' is rejected in all 3 surroundings (the code reads 1,7,7), nothing else"
+
+
 def run_all():
     out = []
-    for f in (selftest_l1, selftest_l2, selftest_l3, selftest_csv):
+    for f in (selftest_l1, selftest_l2, selftest_l3, selftest_csv, selftest_version):
         r = f()
         log("selftest " + r)
         out.append(r)
